@@ -379,17 +379,21 @@ def gen_util(tier, rng):
 # (f) input kinds / construction variety at the class layer.  Every field is optional (absent = the plain form), so that
 # older corpus replays keep their meaning.
 VFORMS = ["c16", "c16", "c8", "pairs_arr", "pairs_list", "clist", "noise_cls", "sub"]
-def pick_vform(rng, vals, p=0.5):
+RR_FORMS = ["sub", "c16", "noise_cls", "pairs_arr", "c8", "clist", "pairs_list"]
+def pick_vform(rng, vals, p=0.5, rr=None):
     """how a Visibilities argument is built: complex128 / complex64 ndarray, (K,2) float ndarray, list of [re, im], list of
        Python complex, an instance of the library SUBCLASS VisibilitiesNoiseMap, an instance of a user subclass"""
-    if len(vals) == 0 or rng.random() >= p: return "c16"
-    f = rng.choice(VFORMS)
+    if len(vals) == 0: return "c16"
+    if rr is not None: f = RR_FORMS[rr % len(RR_FORMS)]          # round-robin: every form a regular part of the stream
+    elif rng.random() >= p: return "c16"
+    else: f = rng.choice(VFORMS)
     return f if f != "c8" or fits(vals, "f4") else "c16"
 def mask_how(rng):
     return {"form": rng.choice(["nd", "nd", "list", "invert", "all_false"]), "scalar": rng.random() < 0.5,
             "omit_origin": rng.random() < 0.5, "sub": rng.random() < 0.25}
 def gen_class(tier, rng):
     m = 500 if tier == "thorough" else 40
+    ninv = 0
     for i in range(m):
         g = rgeom(rng); npix = npix_of(g["m"])
         K = rng.choice([0, 1, 2, 3, 4, 6, 8]) if i % 7 == 0 else rng.choice([1, 2, 3, 4, 6, 8])
@@ -405,7 +409,7 @@ def gen_class(tier, rng):
         yield dict(base, op="tvis", preload=pre(bool(i % 2)), native=bool((i // 2) % 2), img=img,
                    idt=pick_dt(rng, img), isub=rng.random() < 0.2, ind=rng.random() < 0.5, **kinds())
         vis = [Sv(v) for v in rcv(rng, K, e=rexp(rng), q="c.timage")]
-        yield dict(base, op="timage", preload=pre(bool(i % 2)), vis=vis, vform=pick_vform(rng, vis),
+        yield dict(base, op="timage", preload=pre(bool(i % 2)), vis=vis, vform=pick_vform(rng, vis, rr=i),
                    dot_img=Sv(rvals(rng, npix, e=rexp(rng))), **kinds())
         P = rng.choice([0, 1, 2, 3, 4]) if i % 5 == 0 else rng.choice([1, 2, 3])
         if True:                      # also the fully masked geometry (0 x P matrix)
@@ -434,12 +438,12 @@ def gen_class(tier, rng):
             data = [Sv(v) for v in rcv(rng, K, e=rexp(rng), q="c.inv.data")]; noise = [Sv(v) for v in rnoise(rng, K, e=en)]
             # the dataset: DatasetInterface around a caller-built transformer, or aa.Interferometer(transformer_class=
             # TransformerDFT) which builds its own (preload left at its default), or a user subclass of Interferometer
-            dskind = rng.choice(["interface", "interface", "interferometer", "interferometer_sub"])
+            dskind = ["interface", "interferometer", "interface", "interferometer_sub"][ninv % 4]; ninv += 1
             yield dict(base, op="inv", preload=bool(i % 2) if dskind == "interface" else True, objs=objs, data=data,
                        noise=noise, value=value, factory=bool(i % 3 == 0),
                        sibling=rng.choice(["M", "data", "noise", "reg"]) if i % 4 in (0, 2) else None,
                        dskind=dskind, settings="omitted" if value == "default" and rng.random() < 0.5 else "explicit",
-                       dform=pick_vform(rng, data), nform=pick_vform(rng, noise), recon=True,
+                       dform=pick_vform(rng, data, rr=ninv), nform=pick_vform(rng, noise, rr=ninv // 2 + 3), recon=True,
                        preloads=rng.choice(["omitted", "explicit"]), sib_inplace=rng.random() < 0.5, **kinds())
 
 # ---- histories: sibling transformers (differing in exactly ONE construction ingredient) alive in one interpreter, method
